@@ -1,11 +1,11 @@
 """C11 — attackers and nodes always agree on what is compromised."""
 from __future__ import annotations
-import json
-from ..common import Result
+import json, random
+from ..common import Result, Violation, canon_hash
 from ..aghist import canon_obs, mirror
 from .c09 import run_histories, failing_oracle
 
-ASSUMPTIONS = ['attackers and nodes passed to compromise / undo / remove_attacker belong to the graph',
+ASSUMPTIONS = ['attackers and nodes passed to remove_attacker / attach belong to the graph; compromise / undo are also exercised with Attacker objects that are not registered (id None) or registered elsewhere (second scenario family, checked per object identity on the real code only)',
                'dataclass == on nodes/attackers coincides with identity inside one graph (distinct ids)']
 TRUSTED = ['Lean 4.33 kernel', 'axioms: propext, Classical.choice, Quot.sound',
            'hand-written model Model/AGS.lean (tied by this correspondence)',
@@ -47,7 +47,69 @@ def step_oracle(im, ops, i, st):
                      if any(x is a for x in n.compromised_by)}
     return probs
 
+# ---- second scenario family: attackers that are not (yet) registered in the graph ---------------------------
+def gen_free(rnd):
+    """Attacker objects act on the nodes of a graph before / without `add_attacker` (their id is None), or while being
+    registered in another graph (ids restart at 0 there): the two sides of the relation must still agree, per object."""
+    return {'nodes': rnd.randint(2, 5),
+            'atts': [rnd.choice(['free', 'free', 'here', 'other']) for _ in range(rnd.randint(2, 4))],
+            'ops': [[rnd.choice(['compromise', 'compromise', 'undo']), None, None, rnd.choice(['attacker', 'node'])]
+                    for _ in range(rnd.randint(3, 14))], 'seed': rnd.getrandbits(32)}
+
+def run_free(sc):
+    from maltoolbox.attackgraph import AttackGraph, AttackGraphNode, Attacker
+    r = random.Random(sc['seed'])
+    g1, g2 = AttackGraph(), AttackGraph()
+    nodes = []
+    for i in range(sc['nodes']):
+        n = AttackGraphNode(type='or', name=f's{i}', ttc=None); g1.add_node(n); nodes.append(n)
+    atts = []
+    for j, kind in enumerate(sc['atts']):
+        a = Attacker(name=f'att{j}', entry_points=[], reached_attack_steps=[])
+        if kind == 'here': g1.add_attacker(a)
+        elif kind == 'other': g2.add_attacker(a)
+        atts.append(a)
+    ref = set()
+    for step, (k, ai, ni, side) in enumerate(sc['ops']):
+        ai = r.randrange(len(atts)) if ai is None else ai
+        ni = r.randrange(len(nodes)) if ni is None else ni
+        a, n = atts[ai], nodes[ni]
+        try:
+            if side == 'node': (n.compromise if k == 'compromise' else n.undo_compromise)(a)
+            else: (a.compromise if k == 'compromise' else a.undo_compromise)(n)
+        except Exception as e:
+            return f'{k} by an attacker with id {a.id} raised {type(e).__name__} (step {step})'
+        (ref.add if k == 'compromise' else ref.discard)((ai, ni))
+        for x, b in enumerate(atts):
+            for y, m in enumerate(nodes):
+                inr = sum(1 for z in b.reached_attack_steps if z is m)
+                inc = sum(1 for z in m.compromised_by if z is b)
+                want = 1 if (x, y) in ref else 0
+                if inr != want or inc != want:
+                    return (f'after {k} of node {y} by attacker {x} (id {a.id}, {sc["atts"][ai]}): attacker {x2s(x, sc)} lists node {y} '
+                            f'{inr}x, node lists the attacker {inc}x, expected {want}x (step {step})')
+                if m.is_compromised_by(b) != bool(want):
+                    return f'is_compromised_by answers {m.is_compromised_by(b)} for an attacker that has {"" if want else "not "}compromised the node (step {step})'
+    return None
+
+def x2s(x, sc): return f'{x} ({sc["atts"][x]})'
+
 def run(seed, tier, lean) -> Result:
+    res = _run(seed, tier, lean)
+    rnd = random.Random(seed ^ 0x11C11)
+    nfree = 300 if tier == 'quick' else 20000
+    for _ in range(nfree):
+        sc = gen_free(rnd)
+        res.evaluations += 1; res.bump('free_attacker_scenarios')
+        if sc['atts'].count('free') >= 2: res.nontrivial.add(canon_hash(sc))
+        bad = run_free(sc)
+        if bad:
+            res.violations.append(Violation(what='attackers not registered in the graph: ' + bad, fingerprint='C11:free:' + bad.split(' (step')[0][:50],
+                                            replay={'free_scenario': sc, 'problem': bad}))
+            break
+    return res
+
+def _run(seed, tier, lean) -> Result:
     res = run_histories('C11', seed, tier, lean, WEIGHTS, step_oracle,
                         lambda kinds, ops: any(o['k'] in ('remove_attacker', 'undo') for o in ops) and
                                            any(o['k'] == 'add_attacker' and len(o['reached']) >= 2 for o in ops),
@@ -61,6 +123,8 @@ def run(seed, tier, lean) -> Result:
 
 def replay(path):
     r = json.load(open(path))
+    if 'free_scenario' in r:
+        bad = run_free(r['free_scenario']); print(bad); print('VIOLATION reproduced' if bad else 'not reproduced'); return 1 if bad else 0
     probs = failing_oracle(r['ops'], step_oracle)
     print('problems:', probs); print('VIOLATION reproduced' if probs else 'not reproduced')
     return 1 if probs else 0
